@@ -305,8 +305,8 @@ func c52Matrix(k *c52Key, pass string, others []string, kdf c52KDF, dir string, 
 	if err := check("reference file ("+kdf.Name+")", c52RefEncrypt(d, k.key.Address, k.key.Id, pass, kdf, salt[:], ivh[:16])); err != nil {
 		return err
 	}
-	if kdf.Name != "scrypt" {
-		return nil
+	if kdf.Name != "scrypt" || kdf.DKLen != 32 {
+		return nil // EncryptKey only writes scrypt files with dklen 32
 	}
 	// real EncryptKey: conforming layout, readable by the reference and by the real code
 	file, err := EncryptKey(k.key, pass, kdf.N, kdf.P)
@@ -431,11 +431,13 @@ func TestVerif_C52(t *testing.T) {
 			{Name: "scrypt", N: 4, R: 8, P: 2, DKLen: 32},
 			{Name: "scrypt", N: 16, R: 8, P: 1, DKLen: 32},
 			{Name: "pbkdf2", C: 2, DKLen: 32},
+			{Name: "scrypt", N: 2, R: 8, P: 1, DKLen: 64}, // files of other clients: longer derived key, MAC still over DK[16:32]
+			{Name: "pbkdf2", C: 3, DKLen: 48},
 		}
 		if r.Thorough() {
 			kdfs = append(kdfs, c52KDF{Name: "scrypt", N: 1024, R: 8, P: 1, DKLen: 32}, c52KDF{Name: "pbkdf2", C: 262144 / 64, DKLen: 32})
 		}
-		r.Rule("keys {1, n-1, fixed hash, 2^128, 0x00ff..ff (thorough +4)} x right passphrase in {\"\", a, pässwörd☃, 200*x, A, \"a \", NUL, aa, sha256(200*x) (thorough +6)} x KDF {scrypt N=2/P=1, N=4/P=2, N=16/P=1, pbkdf2 c=2} x every other passphrase as the wrong one: " +
+		r.Rule("keys {1, n-1, fixed hash, 2^128, 0x00ff..ff (thorough +4)} x right passphrase in {\"\", a, pässwörd☃, 200*x, A, \"a \", NUL, aa, sha256(200*x) (thorough +6)} x KDF {scrypt N=2/P=1, N=4/P=2, N=16/P=1, pbkdf2 c=2, reference-only: scrypt dklen=64, pbkdf2 c=3 dklen=48} x every other passphrase as the wrong one: " +
 			"reference-written file -> DecryptKey; EncryptKey -> reference decrypt, DecryptKey; keyStorePassphrase.StoreKey -> GetKey; plus one LightScrypt (N=4096,P=6) round. " +
 			"corruption: every byte position of a scrypt and a pbkdf2 key file x {flip bit 0, flip bit 5, overwrite with '0', delete} -> GetKey and DecryptKey with the right passphrase. distinct = distinct (mode, key, passphrase, kdf) / (file, position, mutation)")
 		r.Bound("keys", len(keys))
